@@ -131,12 +131,24 @@ pub fn body(sc: Sc, obs: Arc<Mutex<O>>) {
             ctl::window(false);
         }
         if receives {
-            let mut ok = 0;
-            for c in &cs {
-                let mut buf = Vec::new();
-                if answered(c, &mut buf) {
-                    ok += 1;
+            let mut bufs: Vec<Vec<u8>> = vec![Vec::new(); cs.len()];
+            let count = |bufs: &mut Vec<Vec<u8>>| {
+                let mut n = 0;
+                for (c, b) in cs.iter().zip(bufs.iter_mut()) {
+                    if answered(c, b) {
+                        n += 1;
+                    }
                 }
+                n
+            };
+            let mut ok = count(&mut bufs);
+            if ok < b.n {
+                // no statement bounds how soon a burst is served: an implementation may pace
+                // its accept loop (legit-changes/H-change3 sleeps 1 ms per accept above 256
+                // threads).  Grace: 3 virtual seconds, then look again.
+                ctl::sleep(Duration::from_millis(3000));
+                ctl::settle();
+                ok = count(&mut bufs);
             }
             obs.lock().unwrap().served.push((ok, b.n));
         }
@@ -242,6 +254,12 @@ pub fn body(sc: Sc, obs: Arc<Mutex<O>>) {
 }
 
 fn finish(addr: &tiny_http::verif_rt::net::MemAddr, obs: &Arc<Mutex<O>>) {
+    if addr.is_listening() {
+        // 'within a short bounded time': one virtual second, watched passively (no connection
+        // attempt, which could itself be what wakes the accept thread)
+        ctl::sleep(Duration::from_millis(1000));
+        ctl::settle();
+    }
     let refused = connect(addr, 97, &ConnSpec::default()).is_err();
     obs.lock().unwrap().refused_after_drop = Some(refused);
     ctl::sleep(Duration::from_millis(11_000));
@@ -426,7 +444,7 @@ impl Check for C20 {
     }
     fn assumptions(&self) -> Vec<String> {
         vec![
-            "'within a short bounded time' is decided as 'at quiescence, before any virtual time passes'; removal of a UNIX socket path and the wall-clock bound are bound by the conformance run over kernel sockets".into(),
+            "'within a short bounded time' is decided as 'at quiescence, or after one virtual second during which nobody connects'; a burst that is not served completely at quiescence is looked at again after 3 virtual seconds (no statement bounds how soon); removal of a UNIX socket path and the wall-clock bound are bound by the conformance run over kernel sockets".into(),
             "minimum workers that stay parked after the server has been dropped are outside the statement (only surplus workers are required to exit) and are not judged".into(),
             "a spurious return from a condition-variable wait (std permits it) is offered as one more 1-cost deviation at every decision inside the explored window".into(),
         ]
